@@ -14,6 +14,8 @@ CONS = {
     "prod_le": lambda x1, x2, dx1, tk: (x1 * x2, None, 0.6),
     "sq_le": lambda x1, x2, dx1, tk: (x1 * x1, None, 0.8),
     "x1_between": lambda x1, x2, dx1, tk: (x1, -0.6, 0.9),
+    # a squared state next to another occurrence of the same state (the state's polynomial object is used twice)
+    "pow2_plus_x": lambda x1, x2, dx1, tk: (x1 ** 2 + x1, None, 1.2),
     "der_le": lambda x1, x2, dx1, tk: (dx1, None, 0.9),
     "der_mix": lambda x1, x2, dx1, tk: (dx1 + 0.5 * x2, -1.2, 1.0),
     "inert_t": lambda x1, x2, dx1, tk: (x1 - 0.1 * tk, None, 0.8),
